@@ -202,3 +202,50 @@ def h_read_line():
         prove(len(subj) == 1, "R2.literal-decided-by-size-pattern-alone")
     if kind == "Response":
         prove(e.code == b"OK" or e.code == b"NO", "R2.response-code")
+
+
+# ---------------------------------------------------------------- summaries of R1 / R2 for the callers (R3, replies)
+# The unread stream is represented by its concatenation `avail` alone (kept in __read_buffer, inb = b""): by R1/R2
+# both readers are functions of avail, and by the frame scan C05.F nothing else reads the buffer or the socket.
+
+def summary_read_line_loop(L):
+    """effect of the `while True` loop of __read_line, proved by R2: ret = first line, the rest stays unread;
+    Error when the stream holds no complete line"""
+    c = L.self
+    S = c._Client__read_buffer + ghost()["inb"]
+    if CRLF not in S:
+        c._Client__read_buffer = b""
+        ghost()["inb"] = b""
+        raise managesieve.Error("Failed to read data from the server")
+    i = S.index(CRLF)
+    L.ret = S[:i]
+    c._Client__read_buffer = S[i + 2:]
+    ghost()["inb"] = b""
+    return None
+
+
+def k_read_block_summary(ip, args, kwargs):
+    """contract of __read_block proved by R1"""
+    c, size = args[0], args[1]
+    G = core.cur().ghost
+    S = sym.to_z3str(getattr(c, "_Client__read_buffer"))
+    inb = G["inb"]
+    if not (isinstance(inb, bytes) and inb == b""):
+        S = z3.Concat(S, sym.to_z3str(inb))
+    n = sym.to_z3int(size)
+    core.prove(n >= 0, "R1.precondition.size-nonnegative")
+    if not core.branch(z3.Length(S) >= n):
+        setattr(c, "_Client__read_buffer", b"")
+        G["inb"] = b""
+        raise managesieve.Error("Failed to read bytes from the server")
+    setattr(c, "_Client__read_buffer", mkstr(z3.SubString(S, n, z3.Length(S) - n), True))
+    G["inb"] = b""
+    G.setdefault("blocks", []).append(size)
+    return mkstr(z3.SubString(S, 0, n), True)
+
+
+def setup_summaries(ip, unit):
+    from pyvc.interp import LoopSummary
+    ip.loop_specs[("sievelib.managesieve", "Client.__read_line", 0)] = LoopSummary(
+        summary_read_line_loop, header="True", proved_by="C05.R2")
+    ip.name_contracts[("sievelib.managesieve", "Client.__read_block")] = k_read_block_summary
